@@ -762,6 +762,113 @@ def glue(repo, tier):
     return {"obligations": obls, "functions": [dict(c.fn_info("main"), obligations=1)] if mn is not None else []}
 
 
+def store_site_coverage(repo, tier):
+    """Call-site coverage of the cell normalisers: everything that reaches XlsxSheet.data / XlsSheet.data went through
+    `_get_cell_value` / `_get_cell_values` (or is a header string).  Syntactic provenance inside the one function that
+    builds the rows; an unrecognised shape is `unknown` (the native cell-kind scopes then decide)."""
+    obls, fns = [], []
+
+    def assigns_of(fn, name):
+        out = []
+        for n in ast.walk(fn):
+            if isinstance(n, (ast.Assign, ast.AnnAssign)) and n.value is not None:
+                tgts = n.targets if isinstance(n, ast.Assign) else [n.target]
+                for t in tgts:
+                    if isinstance(t, ast.Name) and t.id == name:
+                        out.append(("direct", n.value, None))
+                    elif isinstance(t, ast.Tuple):
+                        for i, e in enumerate(t.elts):
+                            if isinstance(e, ast.Name) and e.id == name:
+                                out.append(("unpack", n.value, i))
+        return out
+
+    def appends_to(fn, name):
+        return [n.args[0] for n in ast.walk(fn) if isinstance(n, ast.Call) and isinstance(n.func, ast.Attribute) and n.func.attr == "append"
+                and isinstance(n.func.value, ast.Name) and n.func.value.id == name and len(n.args) == 1]
+
+    def other_mutations(fn, name):
+        return [ast.unparse(n)[:60] for n in ast.walk(fn) if isinstance(n, ast.Call) and isinstance(n.func, ast.Attribute)
+                and isinstance(n.func.value, ast.Name) and n.func.value.id == name and n.func.attr in ("extend", "insert", "update", "setdefault", "__setitem__")]
+
+    # ---- xlsx
+    m = loader.module(XLSX_PY, repo)
+    fn = m.functions.get("_read_sheet_data")
+    oid = "C05/xlsx_extractor.py::_read_sheet_data/store-sites#sheet-data-only-from-_get_cell_value"
+    if fn is None:
+        obls.append(ground_obligation(oid, False, "function missing", XLSX_PY, kind="store-sites", backend="dataflow", definite=False))
+    else:
+        why = []
+
+        def leaf_ok(e):
+            if isinstance(e, ast.Call) and ast.unparse(e.func) == "_get_cell_value" and len(e.args) == 1:
+                return True
+            if isinstance(e, ast.Call) and ast.unparse(e.func) == "str":
+                return True
+            if isinstance(e, ast.JoinedStr) or (isinstance(e, ast.Constant) and (e.value is None or isinstance(e.value, str))):
+                return True
+            if isinstance(e, ast.IfExp):
+                return leaf_ok(e.body) and leaf_ok(e.orelse)
+            return False
+
+        def expr_ok(e, depth=0):
+            if depth > 4:
+                return False
+            if isinstance(e, ast.ListComp):
+                return leaf_ok(e.elt)
+            if isinstance(e, ast.DictComp):
+                return leaf_ok(e.value)
+            if isinstance(e, ast.List):
+                return all(expr_ok(x, depth + 1) for x in e.elts)
+            if isinstance(e, ast.Name):
+                a = assigns_of(fn, e.id)
+                return bool(a) and all(k == "direct" and expr_ok(v, depth + 1) for k, v, _i in a) and all(expr_ok(x, depth + 1) for x in appends_to(fn, e.id)) \
+                    and not other_mutations(fn, e.id)
+            return False
+        rets = [n for n in ast.walk(fn) if isinstance(n, ast.Return) and n.value is not None]
+        for r in rets:
+            parts = r.value.elts if isinstance(r.value, ast.Tuple) else [r.value]
+            for part in parts:
+                if not expr_ok(part):
+                    why.append(f"line {r.lineno}: `{ast.unparse(part)[:50]}` is not built only from _get_cell_value(...) / header strings")
+        obls.append(ground_obligation(oid, bool(rets) and not why, "; ".join(why) or f"{len(rets)} return site(s)", f"{XLSX_PY}:{fn.lineno}", kind="store-sites",
+                                      backend="dataflow", definite=False))
+        fns.append(dict(m.fn_info("_read_sheet_data"), obligations=1))
+    # ---- xls
+    m = loader.module(XLS_PY, repo)
+    oid = "C05/xls_extractor.py::_read_content/store-sites#sheet-data-only-from-_get_cell_values"
+    cands = [(q, f) for q, f in m.functions.items() if any(isinstance(n, ast.Call) and ast.unparse(n.func) == "XlsSheet" for n in ast.walk(f))]
+    why, n_sites = [], 0
+    for q, fn in cands:
+        for call in [n for n in ast.walk(fn) if isinstance(n, ast.Call) and ast.unparse(n.func) == "XlsSheet"]:
+            dkw = [k.value for k in call.keywords if k.arg == "data"] + ([call.args[1]] if len(call.args) > 1 else [])
+            for dv in dkw:
+                n_sites += 1
+                if isinstance(dv, ast.List) and not dv.elts:
+                    continue
+                if not isinstance(dv, ast.Name):
+                    why.append(f"{q}:{call.lineno} data={ast.unparse(dv)[:40]}")
+                    continue
+                if other_mutations(fn, dv.id) or not all(k == "direct" and isinstance(v, ast.List) and not v.elts for k, v, _i in assigns_of(fn, dv.id)):
+                    why.append(f"{q}: `{dv.id}` is not a list filled only by append")
+                for row in appends_to(fn, dv.id):
+                    if not isinstance(row, ast.Name):
+                        why.append(f"{q}: appended row `{ast.unparse(row)[:40]}`")
+                        continue
+                    stores = [n for n in ast.walk(fn) if isinstance(n, ast.Assign) and any(isinstance(t, ast.Subscript) and isinstance(t.value, ast.Name) and t.value.id == row.id
+                                                                                           for t in n.targets)]
+                    if other_mutations(fn, row.id) or not stores or not all(k == "direct" and isinstance(v, ast.Dict) and not v.keys for k, v, _i in assigns_of(fn, row.id)):
+                        why.append(f"{q}: row `{row.id}` is not a dict filled only by item stores")
+                    for st_ in stores:
+                        v = st_.value
+                        srcs = assigns_of(fn, v.id) if isinstance(v, ast.Name) else []
+                        if not srcs or not all(k == "unpack" and i == 0 and isinstance(val, ast.Call) and ast.unparse(val.func) == "_get_cell_values" for k, val, i in srcs):
+                            why.append(f"{q}:{st_.lineno} stored value `{ast.unparse(v)[:40]}` is not the native value of _get_cell_values(...)")
+        fns.append(dict(m.fn_info(q), obligations=1))
+    obls.append(ground_obligation(oid, n_sites >= 1 and not why, "; ".join(why) or f"{n_sites} XlsSheet(data=...) site(s)", XLS_PY, kind="store-sites", backend="dataflow",
+                                  definite=False))
+    return {"obligations": obls, "functions": fns}
+
+
 def native_scope(repo, tier):
     """BOUNDED stand-ins (DESIGN 2.8), one obligation per construct, run on the real code on every check (replay/C05.py):
     a mismatch is a concrete failing input (violation); finding nothing proves nothing (`bounded-ok`, never discharged).
@@ -795,7 +902,7 @@ def native_scope(repo, tier):
     return {"obligations": obls, "undecided": und}
 
 
-EXTRA = [registry, ods_cell_kinds, covers, glue, native_scope]
+EXTRA = [registry, ods_cell_kinds, covers, glue, store_site_coverage, native_scope]
 
 
 def recorded_exclusions():
@@ -848,9 +955,11 @@ ASSUMED_MODELS = ["dataclasses.is_dataclass / fields (instance: declared fields 
                   "xml Element.get(name, default) returns a str or the default (ODS kind flow)",
                   "extraction results' iterate_units() yields a finite sequence of dataclass instances"]
 BOUNDED = [{"what": "from_json(json.loads(json.dumps(to_json(x)))) raises nothing (the decoder contracts are partial-correctness: 'returns DESER on normal "
-                    "return'; exceptions on malformed encodings are allowed and not characterised)",
-            "bound": "BOUNDED native replay: 5 type-directed variants of each of the 118 registered dataclasses (580 instances, strings from the marker "
-                     "vocabulary) + results and units of 40 fixture documents (replay/C05.py --scope)"}]
+                    "return'; exceptions on malformed encodings are allowed and not characterised); base64/json library behaviour at block-size boundaries; "
+                    "idempotence of __post_init__ normalisations; value kinds that openpyxl / xlrd / the ODF parser hand to the cell normalisers; what "
+                    "cli.main writes to an encoded stdout",
+            "bound": "the BOUNDED obligations C05/replay::native-scope/bounded#<construct>.BOUNDED (replay/C05.py scopes, run on the real code on every check); "
+                     "each lists its own bound"}]
 ASSUMPTIONS = ["PY-FLOAT-REAL: floats in V are finite reals (NaN/inf not modelled)",
                "mappings in V have string keys (registry obligation: every Dict hint has str keys); str(key) == key; keys are unique",
                "a set is encoded in its iteration order, which is fixed within a process (PY-HASHSEED)",
